@@ -86,6 +86,14 @@ class A(Adapter):
                                    "tol": rat(1e-5), "container_dims": list(dims)},
                                   dense=dense, partner=partner, constant_generator=const,
                                   max_instances=(3 if const else 10**9)))
+        # generator-only configurations (C10): many-way splits of one item — the boundaries of a k-way split are k multiples of
+        # length / k computed in float32, which must still add up to the whole length for every k the constructor accepts
+        for cid, k in (("rand40-e80-split7", 7), ("rand40-e80-split11", 11)):
+            def buildg(k=k):
+                return _make_env(RandomGenerator(40, 80, split_num_same_items=k), 40, True, True)
+            out.append(Config(f"bin_pack-{cid}", buildg,
+                              {"obs_num_ems": 40, "normalize": True, "dense": True, "f32": True, "tol": rat(1e-5), "container_dims": list(big)},
+                              dense=True, partner=None, constant_generator=False, only={"C10"}, instances_factor=(6 if tier == "quick" else 2)))
         return out
 
     # ---- serialisation
